@@ -147,9 +147,9 @@ Definition get_signer_cert (c : keycfg) : res (option signer * string) :=
 Record tls_cert := { tc_pk : option signer; tc_certs : list string }.
 
 Definition e_no_decrypt_certs : err := EOther "no decryption certs available".
-Definition e_getting_keypair : err := EOther "error getting keypair".
+Definition e_getting_keypair : err := EOther "error getting keypair: %v".
 Definition e_empty_decrypt_cert : err := EOther "empty decryption cert".
-Definition e_invalid_x509 : err := EOther "invalid x509 decryption cert".
+Definition e_invalid_x509 : err := EOther "invalid x509 decryption cert: %v".
 Definition e_not_valid_now : err := EOther "decryption cert is not valid at this time".
 
 Section WithCertParser.
@@ -376,9 +376,16 @@ Definition chosen_enc_slot (c : keycfg) : option slot := first_present c [EncSet
 
 (* ---------- observables for the correspondence check ---------- *)
 (* errors of this area are fmt.Errorf / dependency errors: compared by their message up to the first ": " *)
+(* the Go side keeps an error text up to its first ": " (fmt.Errorf("...: %v", cause)): the format strings of the model
+   are cut the same way *)
+Fixpoint cut_colon (s : string) : string :=
+  match s with
+  | String a ((String b _) as r) => if (Ascii.eqb a ":" && Ascii.eqb b " ")%bool then "" else String a (cut_colon r)
+  | other => other
+  end.
 Definition kerr_val (e : err) : val :=
   match e with
-  | EOther l => VC "Other" [VS l]
+  | EOther l => VC "Other" [VS (cut_colon l)]
   | _ => err_val e
   end.
 Definition kres_val {A} (f : A -> val) (r : res A) : val :=
